@@ -24,9 +24,9 @@ fn abs_max() {
     kani::cover!(true);
     let r = AbsLockTime::max(ta, tb);
     let same_unit = (a < THRESHOLD) == (b < THRESHOLD);
-    assert!(r.is_some() == same_unit, "C17:abs_max.none_iff_units_differ");
+    assert!(r.is_some() == same_unit, "C02,C17:abs_max.none_iff_units_differ");
     if let Some(t) = r {
-        assert!(t.to_consensus_u32() == if a >= b { a } else { b }, "C17:abs_max.is_larger");
+        assert!(t.to_consensus_u32() == if a >= b { a } else { b }, "C02,C17:abs_max.is_larger");
     }
     let c = ta.cmp_by_consensus(tb);
     assert!((c == core::cmp::Ordering::Less) == (a < b) && (c == core::cmp::Ordering::Equal) == (a == b), "C19:abs_cmp_by_consensus.total");
